@@ -131,6 +131,13 @@ MISSED = {
     "C15-N": "WithGlobalDimensions was only constructed, its mutators never called",
     "C17-M": "runtime test sinks were installed and dropped by one controller thread, never for different runtimes at once",
     "C17-N": "with_test_sink was not exercised (set_test_sink with an explicit guard was)",
+    # round 8
+    "C08-O": "a duplicate always listed its dimension pairs in the order of the original",
+    "C12-O": "no history landed on a rate of exactly 1 - 2^-23",
+    "C12-P": "every sampled formatter got an injected rng; the default rng was never used",
+    "C18-O": "the manual clock only moved between operations, never between two readings inside one",
+    "C18-P": "thread-local time-source injections were never nested",
+    "C19-O": "lying values always wrote some other unit, never no unit",
 }
 
 
